@@ -1,22 +1,35 @@
 package document
 
 // C08: body editing behaves like an ordered list of elements.
+//
+// One inductive step from an arbitrary body: the pre-state is a body of n
+// elements of solver-chosen kinds (n <= bound), the operation's arguments are
+// symbolic, and the list post-conditions are asserted for all of them.
 
-func zzhBody(n int) (*Document, []interface{}) {
+func zzhBodyKinds(n int, maxSect int) (*Document, []interface{}) {
 	d := New()
+	sect := 0
 	for i := 0; i < n; i++ {
-		switch zzvChoice(3) {
+		switch zzvChoice(5) {
 		case 0:
 			d.Body.Elements = append(d.Body.Elements, &Paragraph{Runs: []Run{{Text: Text{Content: zzvString()}}}})
 		case 1:
 			d.Body.Elements = append(d.Body.Elements, &Table{})
 		case 2:
+			sect++
+			zzvAssume(sect <= maxSect)
 			d.Body.Elements = append(d.Body.Elements, &SectionProperties{})
+		case 3:
+			d.Body.Elements = append(d.Body.Elements, &BookmarkStart{ID: "b", Name: "n"})
+		case 4:
+			d.Body.Elements = append(d.Body.Elements, &BookmarkEnd{ID: "b"})
 		}
 	}
 	ref := append([]interface{}(nil), d.Body.Elements...)
 	return d, ref
 }
+
+func zzhBody(n int) (*Document, []interface{}) { return zzhBodyKinds(n, 99) }
 
 func zzhSameElems(a, b []interface{}) bool {
 	if len(a) != len(b) {
@@ -47,9 +60,45 @@ func zzhRefWithout(got, ref []interface{}, k int) bool {
 	return true
 }
 
+// zzhHasPrefix: got starts with exactly the elements of ref, in order.
+func zzhHasPrefix(got, ref []interface{}) bool {
+	if len(got) < len(ref) {
+		return false
+	}
+	for i := range ref {
+		if got[i] != ref[i] {
+			return false
+		}
+	}
+	return true
+}
+
+func zzhCountParas(es []interface{}) int {
+	n := 0
+	for _, e := range es {
+		if _, ok := e.(*Paragraph); ok {
+			n++
+		}
+	}
+	return n
+}
+
+// zzhNthPara returns the element index of the k-th paragraph (or -1).
+func zzhNthPara(es []interface{}, k int) int {
+	c := 0
+	for i, e := range es {
+		if _, ok := e.(*Paragraph); ok {
+			if c == k {
+				return i
+			}
+			c++
+		}
+	}
+	return -1
+}
+
 func ZZH_C08_RemoveElementAt() {
 	n := zzvIntIn(0, zzvBound("elems", 4, 5))
-	_ = n
 	d, ref := zzhBody(n)
 	i := zzvInt()
 	ok := d.RemoveElementAt(i)
@@ -62,4 +111,262 @@ func ZZH_C08_RemoveElementAt() {
 		zzvAssert(zzhSameElems(d.Body.Elements, ref), "RemoveElementAt: failure changes nothing")
 		zzvReach("rejected")
 	}
+}
+
+func ZZH_C08_RemoveParagraphAt() {
+	n := zzvIntIn(0, zzvBound("elems", 4, 5))
+	d, ref := zzhBody(n)
+	np := zzhCountParas(ref)
+	i := zzvInt()
+	ok := d.RemoveParagraphAt(i)
+	if zzvAnd(i >= 0, i < np) {
+		zzvAssert(ok, "RemoveParagraphAt: in-range paragraph index succeeds")
+		k := zzhNthPara(ref, i)
+		zzvAssert(k >= 0, "RemoveParagraphAt: reference finds the paragraph")
+		zzvAssert(zzhRefWithout(d.Body.Elements, ref, k), "RemoveParagraphAt: exactly the i-th paragraph removed, rest in order")
+		zzvReach("removed")
+	} else {
+		zzvAssert(!ok, "RemoveParagraphAt: out-of-range paragraph index reports failure")
+		zzvAssert(zzhSameElems(d.Body.Elements, ref), "RemoveParagraphAt: failure changes nothing")
+		zzvReach("rejected")
+	}
+}
+
+func ZZH_C08_RemoveParagraphByHandle() {
+	n := zzvIntIn(0, zzvBound("elems", 4, 5))
+	d, ref := zzhBody(n)
+	var h *Paragraph
+	k := -1
+	switch zzvChoice(4) {
+	case 0: // a paragraph of the body
+		k = zzvIntIn(0, len(ref)-1)
+		p, isP := ref[k].(*Paragraph)
+		zzvAssume(isP)
+		h = p
+	case 1: // a foreign paragraph (structurally equal to one in the body is allowed)
+		h = &Paragraph{Runs: []Run{{Text: Text{Content: zzvString()}}}}
+	case 2: // nil handle
+		h = nil
+	case 3: // a handle that was already removed
+		k0 := zzvIntIn(0, len(ref)-1)
+		p, isP := ref[k0].(*Paragraph)
+		zzvAssume(isP)
+		zzvAssume(d.RemoveParagraph(p))
+		ref = append([]interface{}(nil), d.Body.Elements...)
+		h = p
+	}
+	ok := d.RemoveParagraph(h)
+	if k >= 0 {
+		zzvAssert(ok, "RemoveParagraph: handle of a body paragraph succeeds")
+		zzvAssert(zzhRefWithout(d.Body.Elements, ref, k), "RemoveParagraph: exactly that paragraph removed, rest in order")
+		zzvReach("removed")
+	} else {
+		zzvAssert(!ok, "RemoveParagraph: unknown/removed/nil handle reports failure")
+		zzvAssert(zzhSameElems(d.Body.Elements, ref), "RemoveParagraph: failure changes nothing")
+		zzvReach("rejected")
+	}
+}
+
+// zzhParaHasText: some run of p carries exactly the text.
+func zzhParaHasText(p *Paragraph, text string) bool {
+	found := false
+	for i := range p.Runs {
+		found = zzvOr(found, p.Runs[i].Text.Content == text)
+	}
+	return found
+}
+
+// zzhTailIsNew: everything after the first n elements is new (not one of ref) and the
+// handle p is among them exactly once.
+func zzhTailHolds(got, ref []interface{}, p *Paragraph) bool {
+	cnt := 0
+	for i := len(ref); i < len(got); i++ {
+		for _, r := range ref {
+			if got[i] == r {
+				return false
+			}
+		}
+		if q, ok := got[i].(*Paragraph); ok && q == p {
+			cnt++
+		}
+	}
+	return cnt == 1
+}
+
+func ZZH_C08_AppendParagraph()          { zzhAppendPara(0) }
+func ZZH_C08_AppendFormattedNil()       { zzhAppendPara(1) }
+func ZZH_C08_AppendFormatted()          { zzhAppendPara(2) }
+func ZZH_C08_AppendHeading()            { zzhAppendPara(3) }
+func ZZH_C08_AppendHeadingBookmark()    { zzhAppendPara(4) }
+func ZZH_C08_AppendHeadingWithBookmark() { zzhAppendPara(5) }
+func ZZH_C08_AppendListItem()           { zzhAppendPara(6) }
+
+// zzhLevel: heading levels -1..10 (below, inside and above the valid 1..9), one path each.
+func zzhLevel() int { return zzvChoice(12) - 1 }
+
+func zzhAppendPara(op int) {
+	n := zzvIntIn(0, zzvBound("elems_append", 3, 4))
+	d, ref := zzhBody(n)
+	text := zzvString()
+	var p *Paragraph
+	switch op {
+	case 0:
+		p = d.AddParagraph(text)
+	case 1:
+		p = d.AddFormattedParagraph(text, nil)
+	case 2:
+		p = d.AddFormattedParagraph(text, &TextFormat{Bold: zzvBool(), Italic: zzvBool(), FontSize: zzvIntIn(0, 100), FontColor: zzvString(), FontFamily: zzvString()})
+	case 3:
+		p = d.AddHeadingParagraph(text, zzhLevel())
+	case 4:
+		p = d.AddHeadingParagraphWithBookmark(text, zzhLevel(), zzvString())
+	case 5:
+		p = d.AddHeadingWithBookmark(text, zzhLevel(), zzvString())
+	case 6:
+		p = d.AddListItem(text, nil)
+		zzvAssume(text != "") // an empty list item legitimately has no run
+	}
+	got := d.Body.Elements
+	zzvAssert(p != nil, "append: returns the new paragraph")
+	zzvAssert(zzhHasPrefix(got, ref), "append: earlier elements undisturbed and in order")
+	zzvAssert(len(got) > len(ref), "append: body grew")
+	zzvAssert(zzhTailHolds(got, ref, p), "append: the new paragraph is in the appended tail exactly once")
+	zzvAssert(zzhParaHasText(p, text), "append: the new paragraph carries the text")
+	// the new paragraph is the last paragraph of the body
+	lastP := zzhNthPara(got, zzhCountParas(got)-1)
+	zzvAssert(lastP >= len(ref) && got[lastP] == interface{}(p), "append: new paragraph is the last paragraph")
+	zzvReach("appended")
+}
+
+func ZZH_C08_AppendOther() {
+	n := zzvIntIn(0, zzvBound("elems_append", 3, 4))
+	d, ref := zzhBody(n)
+	op := zzvChoice(5)
+	switch op {
+	case 0:
+		d.AddPageBreak()
+		got := d.Body.Elements
+		zzvAssert(len(got) == len(ref)+1, "AddPageBreak: exactly one element appended")
+		p, isP := got[len(got)-1].(*Paragraph)
+		zzvAssert(isP && len(p.Runs) == 1 && p.Runs[0].Break != nil && p.Runs[0].Break.Type == "page", "AddPageBreak: last element is a page-break paragraph")
+	case 1:
+		rows, cols := zzvIntIn(-1, 2), zzvIntIn(-1, 2)
+		t, err := d.AddTable(&TableConfig{Rows: rows, Cols: cols, Width: 4000})
+		got := d.Body.Elements
+		if err != nil {
+			zzvAssert(zzhSameElems(got, ref), "AddTable: failure changes nothing")
+			zzvReach("table-rejected")
+		} else {
+			zzvAssert(len(got) == len(ref)+1 && got[len(got)-1] == interface{}(t), "AddTable: the new table is the last element")
+			zzvAssert(t.GetRowCount() == rows && t.GetColumnCount() == cols, "AddTable: requested shape")
+			zzvReach("table-added")
+		}
+	case 2:
+		var e interface{}
+		switch zzvChoice(3) {
+		case 0:
+			e = &Paragraph{}
+		case 1:
+			e = &Table{}
+		case 2:
+			e = &BookmarkEnd{ID: "x"}
+		}
+		d.Body.AddElement(e)
+		got := d.Body.Elements
+		zzvAssert(len(got) == len(ref)+1 && got[len(got)-1] == e, "AddElement: element appended last")
+	case 3:
+		err := d.AddFootnote(zzvString(), zzvString())
+		zzvAssert(err == nil, "AddFootnote: succeeds")
+		got := d.Body.Elements
+		zzvAssert(len(got) == len(ref)+1, "AddFootnote: exactly one element appended")
+		_, isP := got[len(got)-1].(*Paragraph)
+		zzvAssert(isP, "AddFootnote: appended element is a paragraph")
+	case 4:
+		data := []byte("\x89PNG\r\n\x1a\n0000")
+		info, err := d.AddImageFromData(data, zzvString(), ImageFormatPNG, zzvIntIn(1, 4000), zzvIntIn(1, 4000), nil)
+		zzvAssert(err == nil && info != nil, "AddImageFromData: succeeds")
+		got := d.Body.Elements
+		zzvAssert(len(got) == len(ref)+1, "AddImageFromData: exactly one element appended")
+		p, isP := got[len(got)-1].(*Paragraph)
+		zzvAssert(isP && len(p.Runs) == 1 && p.Runs[0].Drawing != nil, "AddImageFromData: appended element is a picture paragraph")
+	}
+	zzvAssert(zzhHasPrefix(d.Body.Elements, ref), "append: earlier elements undisturbed and in order")
+	zzvReach("done")
+}
+
+// Section-settings creating calls: leave every other element where it was (in order),
+// and the body holds exactly one section-settings element afterwards.
+func ZZH_C08_SectionCreators() {
+	n := zzvIntIn(0, zzvBound("elems_sect", 3, 4))
+	d, ref := zzhBodyKinds(n, 1)
+	switch zzvChoice(4) {
+	case 0:
+		zzvAssume(d.SetPageMargins(20, 20, 20, 20) == nil)
+	case 1:
+		zzvAssume(d.AddHeader(HeaderFooterTypeDefault, zzvString()) == nil)
+	case 2:
+		d.SetDifferentFirstPage(zzvBool())
+	case 3:
+		zzvAssume(d.SetPageOrientation(OrientationLandscape) == nil)
+	}
+	got := d.Body.Elements
+	var a, b []interface{}
+	ns := 0
+	for _, e := range got {
+		if _, ok := e.(*SectionProperties); ok {
+			ns++
+		} else {
+			a = append(a, e)
+		}
+	}
+	for _, e := range ref {
+		if _, ok := e.(*SectionProperties); !ok {
+			b = append(b, e)
+		}
+	}
+	zzvAssert(zzhSameElems(a, b), "section creators: all other elements undisturbed and in order")
+	zzvAssert(ns == 1, "section creators: exactly one section-settings element afterwards")
+	zzvReach("done")
+}
+
+// The saved main part lists the elements in list order, section settings exactly once, last.
+// Body.MarshalXML is executed against a recording xml.Encoder (native replay: real
+// encoding/xml + Decoder).
+func ZZH_C08_MarshalOrder() {
+	n := zzvIntIn(0, zzvBound("elems_marshal", 4, 5))
+	d := New()
+	var want []string
+	sect := 0
+	for i := 0; i < n; i++ {
+		switch zzvChoice(4) {
+		case 0:
+			txt := "e" + zzvItoa(i)
+			d.Body.Elements = append(d.Body.Elements, &Paragraph{Runs: []Run{{Text: Text{Content: txt}}}})
+			want = append(want, "Paragraph:"+txt)
+		case 1:
+			d.Body.Elements = append(d.Body.Elements, &Table{})
+			want = append(want, "Table")
+		case 2:
+			sect++
+			zzvAssume(sect <= 1)
+			d.Body.Elements = append(d.Body.Elements, &SectionProperties{})
+		case 3:
+			d.Body.Elements = append(d.Body.Elements, &BookmarkEnd{ID: "b"})
+			want = append(want, "BookmarkEnd")
+		}
+	}
+	if sect == 1 {
+		want = append(want, "SectionProperties")
+	}
+	got := zzvBodyChildren(d.Body)
+	ok := len(got) == len(want)
+	if ok {
+		for i := range got {
+			if got[i] != want[i] {
+				ok = false
+			}
+		}
+	}
+	zzvAssert(ok, "marshal: children are the non-section elements in list order, then the section settings exactly once, last")
+	zzvReach("marshalled")
 }
